@@ -82,6 +82,8 @@ def cases(ctx):
     for i in range(ctx.pick(40000, 600000)):
         op = OPS[i % len(OPS)]
         pool = rng.sample(gen.KEY_POOL, 4) + [None] if rng.random() < 0.7 else rng.sample(gen.HASHABLE_POOL, 5)
+        if rng.random() < 0.15:
+            pool = pool + [[1, 2], (1, 2), [1, 2]]      # a list and the tuple with the same elements are one key under the ordering
         nkey = 1 if rng.random() < 0.7 else 2
         samenames = rng.random() < 0.6
         lkn = ['k', 'j'][:nkey]
